@@ -18,8 +18,8 @@ var c01Configs = []jsConfig{
 }
 
 type jsCaseStats struct {
-	mu       sync.Mutex
-	reasons  map[string]int
+	mu      sync.Mutex
+	reasons map[string]int
 }
 
 func (s *jsCaseStats) add(r string) {
